@@ -145,6 +145,10 @@ func (state *RuntimeState) certGenHandler(w http.ResponseWriter, r *http.Request
 			return
 		}
 		metricLogCertDuration("unparsed", "requested", float64(newDuration.Seconds()))
+		if newDuration < 0 {
+			state.writeFailureResponse(w, r, http.StatusBadRequest, "Error parsing form (negative duration)")
+			return
+		}
 		if newDuration > duration {
 			logger.Println(err)
 			state.writeFailureResponse(w, r, http.StatusBadRequest, "Error parsing form (invalid duration)")
